@@ -1,2 +1,119 @@
-(* placeholder until the proofs land *)
-From MW Require Import Common.Str C14.Model.
+(* C14 — property theorems only.  Each is closed by `exact <lemma>` and followed by Print Assumptions.
+   Model.v: writer, revisions file, reader, index, lookups, fs_escape, image path; title normalisation is the C12 model
+   instantiated with the generated tables (C12/Gen_*.v, regenerated on every run). *)
+From Coq Require Import List NArith ZArith Bool.
+From MW Require Import Common.Str C12.Model C12.ListLemmas C12.Proofs C12.Inst C12.ProofsInst.
+From MW Require Import C14.Model C14.Inst C14.ProofsIndex C14.ProofsEscape C14.ProofsImage C14.ProofsFile.
+Import ListNotations.
+Open Scope N_scope.
+
+(* THE FILE.  For every list of records whose JSON headers contain no newline and whose texts do not contain the record
+   separator "\n\x0c --page-- " (texts may START with its tail "\x0c --page-- ", may end with any prefix of it, may be
+   empty, may contain "--page--" lines and fake headers), the reader's chunking (split on the separator, re-join of a chunk
+   that follows a header without newline, split at the first newline) returns exactly the (header, text) pairs written. *)
+Theorem C14_file_roundtrip : forall rs,
+  Forall (fun r => ~ In c_lf (r_json r) /\ contains sep (r_text r) = false) rs ->
+  read_chunks (file_of rs) = Some (hs_of rs).
+Proof. exact read_chunks_file. Qed.
+Print Assumptions C14_file_roundtrip.
+
+(* PAGES, BY REVISION ID.  loads/dumps is the JSON codec oracle (loads (dumps m) = m on the headers written).  For all
+   write operations through write_pages (any order, any batches, re-deliveries), every stored revision is served with
+   its text under its revision id — unless the text is itself a redirect page, which mwlib follows. *)
+Theorem C14_pages_roundtrip_by_revid : forall loads redirect_of ops redirects r v name,
+  let rs := write_ops [] ops in
+  (forall o, In o ops -> exists r, o = WPage r) ->
+  (forall r, In r rs -> loads (r_json r) = Some (r_meta r)) ->
+  Forall (fun r => ~ In c_lf (r_json r) /\ contains sep (r_text r) = false) rs ->
+  In r rs -> rev_of r = Some v -> dict_get str_eqb name redirects = None ->
+  (r_text r = [] \/ redirect_of (r_text r) = None) ->
+  exists ix, read_revisions loads (file_of rs) = Some ix /\
+             get_page redirect_of ix redirects name (Some v) = Some (page_of r).
+Proof. exact pages_by_revid. Qed.
+Print Assumptions C14_pages_roundtrip_by_revid.
+
+(* PAGES, BY TITLE: THE NEWEST REVISION, whatever the order of writing; the same page is served under every
+   equivalent spelling because normalize_and_get_page looks up get_fqname(spelling) = the canonical title
+   (C12_spelling_invariant / C12_idempotent). *)
+Theorem C14_pages_roundtrip_by_title : forall loads redirect_of ops redirects r v t,
+  let rs := write_ops [] ops in
+  (forall o, In o ops -> exists r, o = WPage r) ->
+  (forall r, In r rs -> loads (r_json r) = Some (r_meta r)) ->
+  Forall (fun r => ~ In c_lf (r_json r) /\ contains sep (r_text r) = false) rs ->
+  In r rs -> title_of r = t -> rev_of r = Some v ->
+  (forall r', In r' rs -> title_of r' = t -> exists v', rev_of r' = Some v' /\ (v' <= v)%Z) ->
+  dict_get str_eqb t redirects = None ->
+  exists ix, read_revisions loads (file_of rs) = Some ix /\
+             get_page redirect_of ix redirects t None = Some (page_of r).
+Proof. exact pages_by_title. Qed.
+Print Assumptions C14_pages_roundtrip_by_title.
+
+Theorem C14_pages_by_spelling : forall st rtab ix redirects spelling dns k P t,
+  py_splitname st spelling dns = Ok (k, P, t) ->
+  q_norm st rtab ix redirects spelling dns = Ok (q_get rtab ix redirects t None).
+Proof. exact norm_is_get_of_fqname. Qed.
+Print Assumptions C14_pages_by_spelling.
+
+(* REDIRECTS recorded at write time resolve to the newest revision of the target page. *)
+Theorem C14_redirects_resolve : forall loads redirect_of ops redirects src dst r v rev,
+  let rs := write_ops [] ops in
+  (forall o, In o ops -> exists r, o = WPage r) ->
+  (forall r, In r rs -> loads (r_json r) = Some (r_meta r)) ->
+  Forall (fun r => ~ In c_lf (r_json r) /\ contains sep (r_text r) = false) rs ->
+  dict_get str_eqb src redirects = Some dst ->
+  In r rs -> title_of r = dst -> rev_of r = Some v ->
+  (forall r', In r' rs -> title_of r' = dst -> exists v', rev_of r' = Some v' /\ (v' <= v)%Z) ->
+  exists ix, read_revisions loads (file_of rs) = Some ix /\
+             get_page redirect_of ix redirects src rev = Some (page_of r).
+Proof. exact pages_redirect. Qed.
+Print Assumptions C14_redirects_resolve.
+
+(* FILE NAMES.  Two titles over the property's alphabet (every non-ASCII code point, ASCII letters and digits,
+   '-' '.' '_' '~' and space; no edge spaces) that get the same file name are equal up to '_' versus ' '. *)
+Theorem C14_fs_escape_injective : forall a b,
+  forallb alpha a = true -> forallb alpha b = true -> ends_nonspace a -> ends_nonspace b ->
+  fs_escape a = fs_escape b -> map us2sp a = map us2sp b.
+Proof. exact fs_escape_injective. Qed.
+Print Assumptions C14_fs_escape_injective.
+
+(* IMAGES.  For every bundled site: an image stored under its canonical title T (local File-namespace name, ':',
+   capitalised remainder p) is found — at the very file name the writer used — under every spelling of the C12 grammar
+   (any name/alias of namespace 6 in any letter case, '_' or runs of spaces, leading colon, edge white space and marks),
+   and under the bare remainder (default namespace 6).  Names are taken after URL-unquoting; %XX is excluded. *)
+Theorem C14_image_found_by_spelling : forall nm st en L n s NS' W p P' E1 C E3 E4 stored,
+  In (nm, st) all_sites -> In n (names_of st 6%Z) -> n <> [] -> star_of st 6%Z = Some L ->
+  cv py_upper_char py_lower_char s n -> expands s NS' ->
+  Forall (ws' py_is_ws) W -> Forall (edge' py_is_ws) E1 ->
+  Forall (edge' py_is_ws) (match C with Some E2 => E2 | None => [] end) ->
+  Forall (edge' py_is_ws) E3 -> Forall (edge' py_is_ws) E4 ->
+  tidy py_is_ws p -> expands p P' ->
+  let T := prefix_of L ++ maybe_capitalize py_upper_char (s_capitalize st) p in
+  ~ In 47 T -> In T stored ->
+  q_image st en stored (E1 ++ lead C ++ NS' ++ W ++ c_colon :: E3 ++ P' ++ E4) = Ok (Some (stored_name T)).
+Proof. exact image_found_by_spelling. Qed.
+Print Assumptions C14_image_found_by_spelling.
+
+Theorem C14_image_found_by_bare_name : forall nm st en L p P' E1 E4 stored,
+  In (nm, st) all_sites -> star_of st 6%Z = Some L ->
+  Forall (edge' py_is_ws) E1 -> Forall (edge' py_is_ws) E4 ->
+  tidy py_is_ws p -> ~ In c_colon p -> expands p P' ->
+  let T := prefix_of L ++ maybe_capitalize py_upper_char (s_capitalize st) p in
+  ~ In 47 T -> In T stored ->
+  q_image st en stored (E1 ++ P' ++ E4) = Ok (Some (stored_name T)).
+Proof. exact image_found_plain. Qed.
+Print Assumptions C14_image_found_by_bare_name.
+
+(* Non-vacuity: two revisions of "A" written oldest first, the newer text starting with the separator tail; the file is
+   read back, title lookup gives revision 9, revision 5 is still served by id. *)
+Example C14_example :
+  let m5 := {| m_title := [65]; m_ns := 0%Z; m_revid := Some 5%Z; m_expanded := false |} in
+  let m9 := {| m_title := [65]; m_ns := 0%Z; m_revid := Some 9%Z; m_expanded := false |} in
+  let r5 := {| r_meta := m5; r_json := [123; 53; 125]; r_text := [102; 105; 118; 101] |} in
+  let r9 := {| r_meta := m9; r_json := [123; 57; 125]; r_text := tl sep ++ [110; 105; 110; 101] |} in
+  let ops := [WPage r5; WPage r9; WPage r5] in
+  match archive_index ops with
+  | Some ix => q_get [] ix [] [65] None = Some (page_of r9) /\ q_get [] ix [] [65] (Some 5%Z) = Some (page_of r5)
+  | None => False
+  end.
+Proof. vm_compute. split; reflexivity. Qed.
+Print Assumptions C14_example.
